@@ -3,6 +3,7 @@ import Autd3.Drv.Fw
 import Autd3.Drv.C18
 import Autd3.Drv.C14
 import Autd3.Drv.C06
+import Autd3.Drv.C04
 /-! `autd3model <stream>`: one request line in, one answer line out. -/
 
 partial def loop {σ : Type} (h : IO.FS.Stream) (out : IO.FS.Stream) (step : σ → String → σ × String) (s : σ) : IO Unit := do
@@ -20,6 +21,8 @@ def main (args : List String) : IO UInt32 := do
   | ["pbcodec"] => loop stdin stdout Autd3.Drv.C18.step Autd3.Drv.C18.init; return 0
   | ["wrappers"] => loop stdin stdout Autd3.Drv.C14.step Autd3.Drv.C14.init; return 0
   | ["sampling"] | ["f32ops"] => loop stdin stdout Autd3.Drv.C06.step Autd3.Drv.C06.init; return 0
+  | ["sender"] => loop stdin stdout Autd3.Drv.C04.step Autd3.Drv.C04.init; return 0
+  | ["sender_async"] => loop stdin stdout Autd3.Drv.C04.step Autd3.Drv.C04.initAsync; return 0
   | [s] =>
     if s.startsWith "fw_" then do loop stdin stdout Autd3.Drv.FwS.step Autd3.Drv.FwS.init; return 0
     else do IO.eprintln "unknown stream"; return 2
